@@ -70,4 +70,7 @@ RtPol == [mm |-> "throw", ov |-> "throw", arch |-> "json", dev |-> ""]
 Undetectable == ~HasNonFiniteDoc /\ ~JsonDetectable(Render(Doc, [ws |-> IF opt.fmt THEN 2 ELSE 0, esc |-> 0, order |-> 0], 0), opt.enc, opt.bom)
 Export == PrintT(<<"GEN", ToJson([root |-> root, opt |-> opt, exp |-> Exec(Doc, root, RtPol), expsave |-> IF HasNonFiniteDoc THEN "throws" ELSE "ok",
                                  expdev |-> IF Undetectable THEN <<[dev |-> "Dev_JsonBomlessUtf16Undetectable", exp |-> [ev |-> <<>>, exc |-> <<"ser", "Parsing error">>]]>> ELSE <<>>])>>)
+ExportWide == HasNonFiniteDoc \/ \A wt \in WideTypes : WideRoot(root, wt) = root \/
+                 PrintT(<<"GEN", ToJson([root |-> WideRoot(root, wt), opt |-> opt, exp |-> Exec(Doc, root, RtPol), expsave |-> "ok",
+                                 expdev |-> IF Undetectable THEN <<[dev |-> "Dev_JsonBomlessUtf16Undetectable", exp |-> [ev |-> <<>>, exc |-> <<"ser", "Parsing error">>]]>> ELSE <<>>])>>)
 =============================================================================
